@@ -325,7 +325,7 @@ func checkC10(c *Ctx, r *Report) {
 			r3.Check(derivesFrom(v, isCallResult(0, fk), "github.com/multiformats/go-multiaddr.FilterAddrs"), "addrsForDial: returned addresses passed filterKnownUndialables", instrPos(ret), 1, "", "dial candidates bypass the address gate", "")
 		}
 	}
-	r3.onlyCallers("call addrsForDial", []string{"(*"+swarmP+".Swarm).addrsForDial"}, c.FnsOfPkg(swarmP), "(*"+swarmP+".dialWorker).addNewRequest", "(*"+swarmP+".dialWorker).loop")
+	r3.onlyCallers("call addrsForDial", []string{"(*" + swarmP + ".Swarm).addrsForDial"}, c.FnsOfPkg(swarmP), "(*"+swarmP+".dialWorker).addNewRequest", "(*"+swarmP+".dialWorker).loop")
 
 	// ---- R4 ---------------------------------------------------------------
 	r4 := r.Rule("C10-R4", "E1", 12, "Block*/Unblock*: success only past ds==nil or a successful Put/Delete, and past the in-memory update under the write lock")
@@ -494,7 +494,7 @@ func checkC10(c *Ctx, r *Report) {
 			r5.Check(ok, "BlockAddr: value = []byte(ip) (pairs with net.IP(v))", ba.Pos(), 1, "", "", "")
 		}
 	}
-	r5.onlyCallers("call loadRules", []string{"(*"+gT+").loadRules"}, c.Fns, cgP+".NewBasicConnectionGater")
+	r5.onlyCallers("call loadRules", []string{"(*" + gT + ").loadRules"}, c.Fns, cgP+".NewBasicConnectionGater")
 
 	// ---- R6 ---------------------------------------------------------------
 	r6 := r.Rule("C10-R6", "E4", 18, "blockedPeers/blockedAddrs/blockedSubnets only under the gater's RWMutex (writes under the write lock)")
